@@ -57,11 +57,17 @@ def replay_remove_quotes(rep):
 
 def run(rep):
     from contracts import sql as csql
+    from contracts.grouping import JOINER_SHAPE_CASES
+    return _run(rep, csql, JOINER_SHAPE_CASES)
+
+
+def _run(rep, csql, joiner_cases):
     return generic.run_generic(
         rep, [('sqlparse.utils.remove_quotes', None), ('sqlparse.utils.remove_quotes', 'None'),
               ('sqlparse.sql.TokenList.get_parent_name', None),
               ('sqlparse.sql.TokenList._get_first_name', 'first name, forward'),
-              ('sqlparse.sql.TokenList._get_first_name', 'first name, reverse')] + list(csql.C12_SHAPE_CASES) + tc.NAV_FUNCS,
+              ('sqlparse.sql.TokenList._get_first_name', 'first name, reverse')] + list(csql.C12_SHAPE_CASES)
+        + list(joiner_cases) + tc.NAV_FUNCS,
         structural=[replay_remove_quotes, accessor_shapes, tc.identity_side_conditions],
         assumptions=['proved: quote removal (against its specification function), get_parent_name (the qualifier is the '
                      'unquoted value of the nearest non-whitespace child before the first dot, None without one; children '
@@ -73,8 +79,13 @@ def run(rep):
                      'alias (name leaves Name or quoted Symbol with arbitrary values, whitespace runs arbitrary and '
                      'non-empty, the alias a nested Identifier as the grouping builds it): 30 shape cases, each result '
                      'equal to the unquoted written name / qualifier / alias / alias-or-name / alias presence',
-                     'assumed (bounded stand-in only, 64 119 cases quick, 198 000 thorough): that the grouping passes build '
-                     'exactly these six shapes for the references the property quantifies over, in every context',
+                     'the passes that build these shapes are verified on explicit statements SELECT <construct> FROM t (names '
+                     'and quoting arbitrary): group_period groups exactly qualifier . name, group_identifier a lone name, '
+                     'group_as  name AS alias  into one Identifier whose last child is the alias Identifier, group_aliased  '
+                     'name alias, group_identifier_list  a, b, c  (the joiner _group and _is_delimiter are executed in place '
+                     'on the known children)',
+                     'assumed (bounded stand-in only, 64 119 cases quick, 198 000 thorough): the composition of all passes in '
+                     'every context the property quantifies over (JOIN, UPDATE / INSERT target, subquery)',
                      'str.strip(chars) is modelled only for a one-character argument (s == c* ++ result ++ c*)'],
         trusted=['CPython re engine (lexing of names and quotes)'])
 
